@@ -18,8 +18,8 @@ using fam::Item;
 
 namespace {
 bool close(double a, double b, double rel) { return a == b || std::fabs(a - b) <= rel * std::max(std::fabs(a), std::fabs(b)); }
-enum { A_BATCH = 1, A_MERGE = 2, A_SERDE = 3, A_QUERY = 4, A_REFUSED = 5, A_RESET = 6, A_COPY = 7, A_NAN = 8, A_COMPRESS = 9, A_UNION = 10, A_ALLOCFAIL = 11 };
-const char* a_step_name(int k) { static const char* n[] = { "?", "batch", "merge", "serde", "query", "refused_op", "reset", "copy", "nan", "compress", "union", "alloc_fail" }; return (k >= 1 && k <= 11) ? n[k] : "step"; }
+enum { A_BATCH = 1, A_MERGE = 2, A_SERDE = 3, A_QUERY = 4, A_REFUSED = 5, A_RESET = 6, A_COPY = 7, A_NAN = 8, A_COMPRESS = 9, A_UNION = 10, A_ALLOCFAIL = 11, A_PLACED = 12 };
+const char* a_step_name(int k) { static const char* n[] = { "?", "batch", "merge", "serde", "query", "refused_op", "reset", "copy", "nan", "compress", "union", "alloc_fail", "placed_purge" }; return (k >= 1 && k <= 12) ? n[k] : "step"; }
 
 // restore through the stream reader (chunked refills); the reader must take exactly the image
 template<typename V, typename De> auto restore_stream(Ctx& ctx, const V& b, i64 salt, const char* prop, De de) -> decltype(de(std::declval<std::istream&>())) {
@@ -64,6 +64,24 @@ template<typename T, typename W> struct FiExec {
       case 1: { u64 s = static_cast<u64>(start * 17 + j); return static_cast<i64>(splitmix64(s) % 400); }
       case 2: return j;     // all distinct, weight-1 flood forcing purges
       default: return start % 50; }
+  }
+  // adversarial stream (integer items only, where std::hash is the identity and the slot of a key is fmix64(key) & mask): a fresh sketch that starts at its
+  // maximum map size receives exactly one key per home slot, 3/4 of the slots plus one, so that the last insert triggers the first purge. One quarter of the
+  // table (rotated by the step argument) holds light counters only; of the rest half is heavy, first or second half. Whatever the placement, the purge
+  // takes the median of all counters, so every clause - the epsilon clause in particular - must hold afterwards.
+  template<typename U = T> typename std::enable_if<!std::is_same<U, int64_t>::value>::type placed_purge(Node&, i64) {}
+  template<typename U = T> typename std::enable_if<std::is_same<U, int64_t>::value>::type placed_purge(Node& n, i64 arg) {
+    if (std::hash<int64_t>()(123456789) != 123456789u) { ctx.probe("std_hash_not_identity"); return; }
+    auto fmix = [](u64 k) { k ^= k >> 33; k *= 0xff51afd7ed558ccdULL; k ^= k >> 33; k *= 0xc4ceb9fe1a85ec53ULL; k ^= k >> 33; return k; };
+    const uint32_t size = 1u << n.lg_max, mask = size - 1, cnt = size / 4 * 3 + 1;
+    std::vector<i64> key_of(size, 0); std::vector<bool> have(size, false); uint32_t found = 0;
+    for (u64 k = 1; found < size; k++) { const uint32_t sl = static_cast<uint32_t>(fmix(k) & mask); if (!have[sl]) { have[sl] = true; key_of[sl] = static_cast<i64>(k); found++; } }
+    n.sk.reset(new S(static_cast<uint8_t>(n.lg_max), static_cast<uint8_t>(n.lg_max), std::equal_to<T>(), talloc<T>(1))); n.w.clear(); n.lg_lo = n.lg_hi = n.lg_max;
+    const uint32_t rot = static_cast<uint32_t>(arg & 3) * (size / 4), num_top = size - cnt, num_low = cnt - num_top, num_low_light = num_low / 2; const bool heavy_first = ((arg >> 2) & 1) != 0;
+    const u64 heavy = 1000000, light = 1;
+    for (uint32_t sl = cnt; sl < size; sl++) { const i64 key = key_of[(sl + rot) & mask]; n.sk->update(key, fromq(light)); n.w[key] += light; }
+    for (uint32_t j = 0; j < num_low; j++) { const i64 key = key_of[(j + rot) & mask]; const bool is_light = heavy_first ? j >= num_low - num_low_light : j < num_low_light; const u64 wt = is_light ? light : heavy; n.sk->update(key, fromq(wt)); n.w[key] += wt; }
+    ctx.probe("placed_purge"); ctx.nontrivial = true;
   }
   void check(Node& n, const char* after) {
     const S& s = *n.sk; const std::string w = std::string(" after ") + after;
@@ -130,6 +148,7 @@ template<typename T, typename W> struct FiExec {
         case A_SERDE: { auto b = n.sk->serialize(0, typename Item<T>::serde());
           if (s.c & 2) n.sk.reset(new S(restore_stream(ctx, b, s.c, "C12", [&](std::istream& is) { return S::deserialize(is, typename Item<T>::serde(), std::equal_to<T>(), talloc<T>(1)); })));
           else n.sk.reset(new S(S::deserialize(b.data(), b.size(), typename Item<T>::serde(), std::equal_to<T>(), talloc<T>(1)))); ctx.fault("checkpoint_restore"); break; }
+        case A_PLACED: placed_purge(n, s.c); break;
         case A_QUERY: query(n, s.b); break;
         case A_REFUSED: refused(*n.sk); break;
         case A_COPY: { Node& d = nodes[static_cast<size_t>(s.b) % nodes.size()]; if (&d != &n) { if (s.c & 1) *d.sk = *n.sk; else d.sk.reset(new S(*n.sk)); d.w = n.w; d.lg_max = n.lg_max; d.lg_lo = n.lg_lo; d.lg_hi = n.lg_hi; ctx.probe((s.c & 1) ? "copy_assign" : "copy_construct"); } break; }
@@ -150,7 +169,7 @@ struct C12World: World {
   const char* step_name(int k) const override { return a_step_name(k); }
   std::string family_of(const Plan& p) const override { static const char* n[] = { "fi<i64>", "fi<string>", "fi<string,double>" }; return p.cfg.empty() ? "?" : n[p.cfg[0] % 3]; }
   Plan generate(u64 run_seed, int tier) override { Rng rc(run_seed, "cfg"); i64 mx = rc.range(3, tier ? 10 : 8);
-    return gen_generic(run_seed, tier, { static_cast<i64>(rc.below(3)), mx, rc.range(3, mx) }, 3, { {A_BATCH, 45}, {A_MERGE, 20}, {A_SERDE, 10}, {A_QUERY, 15}, {A_REFUSED, 3}, {A_COPY, 7} }, tier ? 4000 : 1500); }
+    return gen_generic(run_seed, tier, { static_cast<i64>(rc.below(3)), mx, rc.range(3, mx) }, 3, { {A_BATCH, 45}, {A_MERGE, 20}, {A_SERDE, 10}, {A_QUERY, 15}, {A_REFUSED, 3}, {A_COPY, 7}, {A_PLACED, 4} }, tier ? 4000 : 1500); }
   void execute(const Plan& p, Ctx& ctx) override {
     alloc_state().reset_counters(); alloc_state().budget = static_cast<size_t>(1) << 31;
     if (p.cfg[0] % 3 == 0) FiExec<int64_t, int64_t>(ctx, p, "fi<i64>").run(); else if (p.cfg[0] % 3 == 1) FiExec<std::string, uint64_t>(ctx, p, "fi<string>").run(); else FiExec<std::string, double>(ctx, p, "fi<string,double>").run();
